@@ -204,6 +204,8 @@ pub fn preprocess_str<T: AsRef<Path>, U: AsRef<Path>, V: BuildHasher>(
     resolve_depth: usize,
     include_depth: usize,
 ) -> Result<(PreprocessedText, Defines), Error> {
+    #[cfg(feature = "verif-hooks")]
+    let _verif_frame = sv_parser_parser::verif_hooks::pp_enter();
 
     // IEEE1800-2017 Clause 22.4, page 675
     // A file included in the source using the `include compiler directive
